@@ -396,6 +396,8 @@ class ClassDiagram:
         """
         # Rebuild a fresh diagram from the same classes to avoid mutating this instance
         result = copy(self)
+        # the shallow copy shares the graph object with this diagram; removing edges from it would remove them here too
+        result._dependency_graph = self._dependency_graph.copy()
         # Convenience locals
         g = result._dependency_graph
 
